@@ -69,6 +69,9 @@ def run(tier):
     _g_identity(chk)
     _h_reload(chk)
     _i_hand_rolled(chk)
+    # the public facade binds every argument to the service parameter it is meant for (nominal swap rule, rules/common.py)
+    from . import common as _common
+    _common.facade_bindings(chk, "C20.f-facade", ['hiten.system'], floor=50)
     return chk
 
 
